@@ -52,6 +52,7 @@ EXTENDS Naturals, Sequences, FiniteSets, SequencesExt, TLC
 POSITIVE == 0
 NONE     == 256      \* no answer
 LATE     == 257      \* ECU model class only: silent once, then positive
+CRASH    == 258      \* ECU model class only: no answer, connection closed, ECU back in its default session
 ROOR     == 49       \* 0x31 requestOutOfRange
 LENERR   == 19       \* 0x13 (what the fake answers to a request it cannot read at all)
 NotSupportedNrcs == {17, 127, 18, 126, 49}   \* helpers.suggests_identifier_not_supported
@@ -103,7 +104,7 @@ ModelCode(E, t, a) ==
 FakeOkD(E, e, d, adr) ==
   IF ~d.ok THEN e.r = LENERR
   ELSE LET c == ModelCode(E, e.t, adr)
-       IN IF c = LATE THEN e.r \in {NONE, POSITIVE} ELSE e.r = c
+       IN IF c = LATE THEN e.r \in {NONE, POSITIVE} ELSE IF c = CRASH THEN e.r = NONE ELSE e.r = c
 
 IsQ(e)        == e.k = "q"
 IsProbe(C, e) == IsQ(e) /\ Len(e.p) >= 1 /\ e.p[1] = C.svc
